@@ -42,6 +42,15 @@ def main():
     except ValueError:
         seed = 0
     from mc import core
+    # the process works in an empty scratch directory: pcbasic resolves some defaults (an unmounted current drive)
+    # against the process's working directory, and a changed tree under test may do so in more places - whatever
+    # file it creates or deletes there must not be one of /verif's
+    import tempfile
+    import shutil
+    if args.replay:
+        args.replay = os.path.abspath(args.replay)
+    scratch_cwd = tempfile.mkdtemp(prefix='pcbverif_cwd_')
+    os.chdir(scratch_cwd)
     try:
         import pcbasic
         if not os.path.abspath(pcbasic.__file__).startswith(os.path.abspath(REPO)):
@@ -59,6 +68,8 @@ def main():
         print('CHECK-ERROR property=%s\n%s' % (args.prop, traceback.format_exc()))
         code = 2
     sys.stdout.flush()
+    os.chdir(VERIF)
+    shutil.rmtree(scratch_cwd, ignore_errors=True)
     # avoid waiting on pool teardown
     os._exit(code)
 
